@@ -523,6 +523,17 @@ var strictByte = rapid.OneOf(
 	rapid.ByteRange(0x21, 0x7e), rapid.ByteRange(0x80, 0xff), rapid.ByteRange(0x02, 0x08),
 ).Filter(func(b byte) bool { return b != '\'' && b != '"' && b != '\\' })
 
+// StrictName draws a file name of the strict alphabet (every byte but white space, quote characters, backslash,
+// NUL and the slash): characters that mean something to a shell, to a glob matcher or to a flag parser first.
+func StrictName(t *rapid.T, label string) string {
+	if rapid.Bool().Draw(t, label+"-fixed") {
+		return rapid.SampledFrom([]string{"report[1].log", "core.*", "what?", "a{b,c}", "~user", "$HOME", "#x", "x;y", "a|b", "-w", "--", "-k", "=x", "a=b", "a,b",
+			"[", "]", "*", "?", "**", "a&b", "(x)", "`x`", "!x", "%41", "a:b", "@x", "^x", "<x>", "\x01", "\x7f", "\xff", "\xc3\xa9"}).Draw(t, label)
+	}
+	b := noUnicodeSpace(rapid.SliceOfN(strictByte.Filter(func(b byte) bool { return b != '/' }), 1, 24).Draw(t, label))
+	return string(b)
+}
+
 // noUnicodeSpace: two or three of the drawn bytes can happen to spell a white-space character beyond ASCII
 // (U+0085, U+00A0, U+2028 ...); white space is outside the C07 domain, so such a sequence is overwritten.
 func noUnicodeSpace(b []byte) []byte {
@@ -823,6 +834,9 @@ func GenSpec(t *rapid.T, o Opts) Spec {
 		paths := []string{o.Dir, o.File, o.Dir + "/missing", "/", "/nonexistent-" + "verif", o.Dir + "/../" + filepath.Base(o.Dir), o.File + "/", o.Dir + "//x"}
 		paths = append(paths, o.Links...) // the kind of a watch follows symbolic links, as stat(2) does
 		s.Path = pick(t, "watchpath", paths)
+		if rapid.IntRange(0, 3).Draw(t, "oddwatchname") == 0 {
+			s.Path = filepath.Join(o.Dir, StrictName(t, "oddwatchname")) // does not exist: a file watch
+		}
 		s.Perms = rapid.StringMatching(`[rwxa]{0,5}`).Draw(t, "perms")
 		s.Keys = genKeys(t, o)
 		return s
